@@ -103,13 +103,37 @@ class Conv:
             co.abort()
 
     def close(self):
-        """the connection task ends: the ClientConnection is dropped"""
-        if self.alive:
-            self.alive = False
-            try:
-                self.it.drop_value(self.cc.v)
-            except Blocked as b:
-                self.blocked = b
+        """the connection task ends: the ClientConnection is dropped (on the connection's logical thread: dropping the next
+        header reader may have to wait for a handler that still holds the socket reader)"""
+        if not self.alive:
+            return None
+        self.alive = False
+        from mirsym.sync import Co
+        co = Co(lambda: self.it.drop_value(self.cc.v))
+        self.cos.append(co)
+        try:
+            st = co.resume()
+        except Blocked as b:
+            self.blocked = b
+            return None
+        if st == 'parked':
+            self.closing = co
+            return PARKED
+        return None
+
+    def finish_close(self):
+        co = getattr(self, 'closing', None)
+        if co is None:
+            return
+        self.closing = None
+        try:
+            st = co.resume()
+        except Blocked as b:
+            self.blocked = b
+            return
+        if st == 'parked':
+            self.blocked = Blocked('connection thread parked forever while closing at %r' % (co.why,), co.why)
+            co.abort()
 
     # ---- request accessors (through the crate's own accessor functions)
     def acc(self, rq, name):
